@@ -235,6 +235,8 @@ async fn error_hook(
 	handler: ChangeableFn<ErrorHook, ()>,
 ) -> Result<(), CriticalError> {
 	while let Some(err) = errors.recv().await {
+		#[cfg(watchexec_verif)]
+		watchexec_supervisor::verif::emit("err_recv", 0, 0);
 		if matches!(err, RuntimeError::Exit) {
 			trace!("got graceful exit request via runtime error, upgrading to crit");
 			return Err(CriticalError::Exit);
